@@ -46,6 +46,7 @@ fn eval(op: &str, args: &[&str]) -> Option<Vec<String>> {
         "envcheck" => c16::envcheck(args),
         "client" => client::client(args),
         "tls" => tlsop::tls(args),
+        "tstall" => tlsop::tstall(args),
         "pool" => poolop::pool(args),
         "tconn" => poolop::tconn(args),
         "urlauth" => poolop::urlauth(args),
